@@ -58,11 +58,21 @@ func (e *Environment) Get(name string) Object {
 }
 
 func (e *Environment) evalNameWithIndex(name string) []string {
+	return e.expandAliases(name, map[string]bool{})
+}
+
+// expandAliases follows every alias once: names that alias each other must not recurse forever
+func (e *Environment) expandAliases(name string, seen map[string]bool) []string {
 	names := strings.Split(name, ".")
 	for _, n := range names {
-		if alias, ok := e.Aliases[n]; ok {
-			names = append(names, e.evalNameWithIndex(alias)...)
+		alias, ok := e.Aliases[n]
+		if !ok || seen[n] {
+			continue
 		}
+
+		seen[n] = true
+
+		names = append(names, e.expandAliases(alias, seen)...)
 	}
 
 	return names
